@@ -105,6 +105,7 @@ PROPS["C19"] = {
 PYR = "TileBBoxPyramid whose 32 level boxes are all symbolic (each from the box generator); symbolic level l; symbolic tile p"
 PROPS["C15"]["harnesses"] += [
 	H("c15_h11_pyramid_intersect", CORE, "verif_kani::c15pyr", funcs=["TileBBoxPyramid::intersect", "TileBBox::intersect_bbox"], bounds=ALL_LEVELS, sample="two " + PYR),
+	H("c15_h11_pyramid_intersect_gapped", CORE, "verif_kani::c15pyr", funcs=["TileBBoxPyramid::intersect", "TileBBox::intersect_bbox"], bounds=ALL_LEVELS + "; second operand concrete, populated at levels 2, 5, 31 only", sample=PYR, timeout=900),
 	H("c15_h11_pyramid_include_l0", CORE, "verif_kani::c15pyr", funcs=["TileBBoxPyramid::include_bbox_pyramid", "TileBBoxPyramid::iter_levels", "TileBBox::include_bbox"], bounds=ALL_LEVELS + "; the included pyramid is symbolic on level 0 and empty elsewhere; the receiving pyramid symbolic on all 32 levels", sample=PYR + "; second pyramid with one symbolic level", stubs=[POW], tier="thorough", timeout=900),
 	H("c15_h11_pyramid_include_l7", CORE, "verif_kani::c15pyr", funcs=["TileBBoxPyramid::include_bbox_pyramid", "TileBBoxPyramid::iter_levels", "TileBBox::include_bbox"], bounds=ALL_LEVELS + "; the included pyramid is symbolic on level 7 and empty elsewhere; the receiving pyramid symbolic on all 32 levels", sample=PYR + "; second pyramid with one symbolic level", stubs=[POW], tier="quick", timeout=900),
 	H("c15_h11_pyramid_include_l31", CORE, "verif_kani::c15pyr", funcs=["TileBBoxPyramid::include_bbox_pyramid", "TileBBoxPyramid::iter_levels", "TileBBox::include_bbox"], bounds=ALL_LEVELS + "; the included pyramid is symbolic on level 31 and empty elsewhere; the receiving pyramid symbolic on all 32 levels", sample=PYR + "; second pyramid with one symbolic level", stubs=[POW], tier="thorough", timeout=900),
@@ -360,6 +361,7 @@ PROPS["C09"] = {
 		H("c15_h11_pyramid_zoom_limits", CORE, "verif_kani::c15pyr", funcs=["TileBBoxPyramid::set_zoom_min", "TileBBoxPyramid::set_zoom_max"], bounds=ALL_LEVELS + "; min/max any u8 (incl. min > max, > 31)", sample=PYR + "; zmin, zmax"),
 		H("c15_h11_pyramid_contains", CORE, "verif_kani::c15pyr", funcs=["TileBBoxPyramid::contains_coord"], bounds=ALL_LEVELS + "; z any u8", sample=PYR + "; coordinate"),
 		H("c15_h11_pyramid_intersect", CORE, "verif_kani::c15pyr", funcs=["TileBBoxPyramid::intersect"], bounds=ALL_LEVELS, sample="two " + PYR),
+		H("c15_h11_pyramid_intersect_gapped", CORE, "verif_kani::c15pyr", funcs=["TileBBoxPyramid::intersect"], bounds=ALL_LEVELS + "; second operand concrete, populated at levels 2, 5, 31 only", sample=PYR, timeout=900),
 		H("c09_intersect_pyramid", CORE, "verif_kani::c15pyr", funcs=["TileBBox::intersect_pyramid"], bounds=ALL_LEVELS, sample=PYR + "; box", stubs=[POW]),
 	] + [
 		H(f"c15_h12_geo_x_z{z}", CORE, c15g, funcs=["TileBBox::from_geo"], bounds=f"zoom {z}: a valid geographic box always maps to a tile box (no error for the filter to unwrap)", sample="see C15", stubs=[LIBM, POW])
@@ -436,7 +438,7 @@ PROPS["C17"] = {
 }
 PROPS["C19"]["harnesses"] += [
 	H(f"c19_format_error_pos{p}", CORE, "byte_iterator::iterator::kani_harness", funcs=["ByteIterator::format_error"], bounds=f"iterator position {p} (concrete), arbitrary 16-byte debug ring and peeked byte", sample="ring: [u8; 16], peeked: Option<u8>", tier=t, timeout=1200)
-	for p, t in [(1, "quick"), (2, "quick"), (3, "thorough"), (16, "thorough"), (17, "quick"), (33, "thorough")]
+	for p, t in [(1, "quick"), (2, "quick"), (3, "thorough"), (16, "thorough"), (17, "thorough"), (33, "thorough")]
 ] + [
 	H("c19_json_string_plain2", CORE, JS, funcs=["parse_quoted_json_string", "ByteIterator::expect_next_byte"], bounds="'\"' b1 b2 '\"' with arbitrary bytes", sample="b1, b2: u8"),
 	H("c19_json_string_unicode_any", CORE, JS, funcs=["parse_quoted_json_string"], bounds="'\"\\\\u' + 4 arbitrary bytes + '\"'", sample="h: [u8; 4]", timeout=1200),
@@ -513,6 +515,19 @@ UNREGISTERED = {
 	"c15_h7_index_roundtrip",
 	# structured vector-tile layers through Box<dyn ValueReader> sub-readers: no verdict in 2400 s
 	"c11_layer_read_2_2", "c11_layer_reencode_2_2", "c10_layer_merge_2_2",
+	# found the from_utf8(..).unwrap() defect of format_error in 14-240 s on the unrepaired tree; with the repair (from_utf8_lossy over a
+	# window of >= 3 symbolic bytes) CBMC runs out of memory (24 GB, ~1000 s): positions 1 and 2 stay registered
+	"c19_format_error_pos3", "c19_format_error_pos16", "c19_format_error_pos17", "c19_format_error_pos33",
+	# JSON string parser on symbolic bytes (from_utf8 validation of symbolic bytes): no verdict in 1200-2400 s
+	"c19_json_string_plain2", "c19_json_string_unicode_any", "c19_json_string_truncated",
+	# PMTiles directory serialisation / decoding of two-byte varints or 3 entries: CBMC out of memory (all checks ERROR) at 24 GB
+	"c01_entries_serialize_1", "c01_entries_serialize_1w", "c01_entries_serialize_2", "c01_entries_serialize_3", "c16_entries_decode_1w", "c16_entries_decode_3",
+	# declared-vs-applied compression through TilesConvertReader::new_from_reader: 420-780 s each and out of memory for 7 of 13 when run
+	# in parallel; the recompression pipeline itself is decided by c04_recompress_* (all 9 pairs x force)
+	"c04_declared_u_keep", "c04_declared_g_keep", "c04_declared_b_keep", "c04_declared_u_g", "c04_declared_u_b", "c04_declared_g_u", "c04_declared_g_g",
+	"c04_declared_g_b", "c04_declared_b_u", "c04_declared_b_g", "c04_declared_b_b", "c04_declared_u_u",
+	# sparse block index incl. the 32-level coverage union: out of memory; the acceptance/lookup instances (..._accept_*) finish in ~100 s
+	"c16_block_index_sparse_coverage_12_12", "c16_block_index_sparse_coverage_5_12",
 	# ran out of memory / time at the thorough caps
 	"c16_block_index_sparse", "c15_h11_pyramid_include_l0", "c15_h11_pyramid_include_l7", "c15_h11_pyramid_include_l31",
 }
